@@ -506,4 +506,18 @@ theorem generated_mul_steps : Generated.qmMulStep = qmMulStep ∧ Generated.bqmM
   · funext s u v acc
     rfl
 
+
+/-- **the comparison methods of the source are the modelled ones** (`cmpVals`): `BinaryQuadraticModel` and `QuadraticModel`
+    build `Eq/Ge/Le(self, other)` — left-hand side the model itself, sense of the method — exactly for a Number operand;
+    `__ge__`/`__le__` return NotImplemented otherwise (TypeError after Python has tried both sides), `__eq__` falls back on
+    `is_equal` (BQM) or NotImplemented → identity (QM), i.e. a bool; the expression views define none of them -/
+theorem generated_comparisons :
+    Generated.comparisons =
+      [("BQM", "__eq__", "Eq", "is_equal"), ("BQM", "__ge__", "Ge", "NotImplemented"), ("BQM", "__le__", "Le", "NotImplemented"),
+       ("QM", "__eq__", "Eq", "NotImplemented"), ("QM", "__ge__", "Ge", "NotImplemented"), ("QM", "__le__", "Le", "NotImplemented")] ∧
+    (∀ s m q, cmpVals s (.mdl m) (.num q) = .ok (some ⟨m, s, q⟩)) ∧
+    (∀ s m q, cmpVals s (.num q) (.mdl m) = .ok (some ⟨m, s.flip, q⟩)) ∧
+    (∀ s o m q, cmpVals s (.view o m) (.num q) = if s = .eq then .ok none else .error .type) :=
+  ⟨rfl, fun _ _ _ => rfl, fun _ _ _ => rfl, fun _ _ _ _ => rfl⟩
+
 end C06
